@@ -15,12 +15,20 @@ func (verifTempErr) Error() string   { return "verif: temporary accept error" }
 func (verifTempErr) Timeout() bool   { return false }
 func (verifTempErr) Temporary() bool { return true }
 
+// a temporary error that is also a timeout (what a listener with a deadline
+// returns when the deadline passes)
+type verifTempTimeoutErr struct{}
+
+func (verifTempTimeoutErr) Error() string   { return "verif: temporary accept timeout" }
+func (verifTempTimeoutErr) Timeout() bool   { return true }
+func (verifTempTimeoutErr) Temporary() bool { return true }
+
 var verifPermErr = errors.New("verif: permanent accept error")
 
 // vlistener returns a scripted sequence of Accept results; when the script is
 // exhausted it calls onIdle once and then blocks until closed.
 type vlistener struct {
-	script       []int // 0 temporary error, 1 permanent error, 2 connection (held open), 3 connection (peer gone at once)
+	script       []int // 0 temporary error, 1 permanent error, 2 connection (held open), 3 connection (peer gone at once), 4 silent peer, 5 temporary error that is also a timeout
 	pos          int
 	closed       chan struct{}
 	closes       int
@@ -40,6 +48,8 @@ func (l *vlistener) Accept() (net.Conn, error) {
 		switch k {
 		case 0:
 			return nil, verifTempErr{}
+		case 5:
+			return nil, verifTempTimeoutErr{}
 		case 1:
 			return nil, verifPermErr
 		case 2:
@@ -106,12 +116,12 @@ func verifC20serve(K, preempt, forks int) {
 	firstPerm := -1
 	ntemp := 0
 	for i := 0; i < n; i++ {
-		k := verifChoice(5)
+		k := verifChoice(6)
 		l.script = append(l.script, k)
 		if k == 1 && firstPerm < 0 {
 			firstPerm = i
 		}
-		if k == 0 && firstPerm < 0 {
+		if (k == 0 || k == 5) && firstPerm < 0 {
 			ntemp++
 		}
 	}
